@@ -364,3 +364,9 @@ def run(ck):
               "descriptor it closes): otherwise the next connection that is given the descriptor number is sent the old bytes first and the old "
               "promises are settled for the wrong peer",
               key_pred=lambda k: k in ("removePeer/toWrite.erase-once", "removePeer/same-descriptor"), min_instances=2)
+
+    # ---------------- facts shared with C07 ----------------
+    ck.borrow("C07", ["C07-R3"], "C06-R8",
+              "a write that was parked by a would-block is resumed: nothing after the drain pass of the writable arm of onReady takes the "
+              "write interest away again that the would-block arm has just armed -- otherwise the unsent tail and everything queued behind "
+              "it never reach the peer", key_pred=lambda k: k.startswith("onReady/"), min_instances=2)
